@@ -354,6 +354,45 @@ func (e *encEngine) dom1(fi *core.FuncInfo, x ast.Expr) dom {
 			}
 			return dX
 		}
+		// a pointer spelled out by hand: "#/section" + "/" + part …  (the same reading as path.Join gets)
+		var parts []ast.Expr
+		var flat func(ast.Expr)
+		flat = func(p ast.Expr) {
+			if b, ok := core.Unparen(p).(*ast.BinaryExpr); ok && b.Op == token.ADD {
+				flat(b.X)
+				flat(b.Y)
+				return
+			}
+			parts = append(parts, core.Unparen(p))
+		}
+		flat(v)
+		if s, ok := core.ConstString(info, parts[0]); ok && strings.HasPrefix(s, "#/") && len(parts) >= 3 {
+			raw := false
+			for i, p := range parts[1:] {
+				if s, ok := core.ConstString(info, p); ok {
+					if i%2 == 0 && s != "/" {
+						return dX
+					}
+					continue
+				}
+				if i%2 == 0 {
+					return dX // two parts not separated by "/"
+				}
+				switch e.dom(fi, p) {
+				case dT, dS:
+				case dN:
+					raw = true
+				case dE:
+					return dE
+				default:
+					return dX
+				}
+			}
+			if raw {
+				e.rawName[x] = true
+			}
+			return dK
+		}
 		return dX
 	case *ast.SliceExpr:
 		// k[1:]
@@ -723,6 +762,22 @@ func encRules(c *Ctx) {
 				// several possible domains (flow-insensitive): a definite mismatch only if every one mismatches
 				e.usePos = key.Pos()
 				set := e.domSetFresh(fi, key)
+				// path.Base(k) of a local with several definitions: the last token of each of its possible pointers
+				if call, isCall := core.Unparen(key).(*ast.CallExpr); isCall && len(call.Args) == 1 {
+					if callee := c.P.StaticCallee(fi, call); callee != nil && callee.FullName() == "path.Base" {
+						set = nil
+						for _, d := range e.domSetFresh(fi, call.Args[0]) {
+							switch d {
+							case dP, dK, dU:
+								set = append(set, dT)
+							case dD:
+								set = append(set, dB)
+							default:
+								set = append(set, dX)
+							}
+						}
+					}
+				}
 				e.usePos = token.NoPos
 				all := len(set) > 0 && want != dX
 				for _, d := range set {
